@@ -225,7 +225,7 @@ def parse_fields(line):
 
 BASE = [("rand", 600, []), ("tiny", 600, []), ("wide", 40, []), ("mutate", 200, []), ("insert", 200, []),
         ("order", 100, []), ("retain", 100, []), ("iter", 150, []), ("clone", 100, []), ("capacity", 40, []),
-        ("churn", 3, []), ("huge", 1, []), ("extreme", 120, []), ("tomb", 0, []), ("cluster", 0, []), ("panic", 60, []), ("exh", 0, ["--depth", "2"])]
+        ("churn", 3, []), ("huge", 1, []), ("extreme", 120, []), ("panicx", 0, ["--rounds", "2"]), ("deepreplace", 0, []), ("tomb", 0, []), ("cluster", 0, []), ("panic", 60, []), ("exh", 0, ["--depth", "2"])]
 
 
 def fam(name, seqs, *extra):
@@ -238,6 +238,8 @@ def fam(name, seqs, *extra):
 VARIANTS = {"plain-v": re.compile(r"dV:\d+ ?"), "plain-k": re.compile(r"dK:\d+ ?"), "plain-kv": re.compile(r"d[KV]:\d+ ?")}
 VARIANT_FEATURES = {"plain-v": "plain-v", "plain-k": "plain-k", "plain-kv": "plain-v,plain-k"}
 
+# every property runs a small general plan on the three drop-glue-free instantiations; the ones below add their own
+VARIANT_DEFAULT = [("rand", 120, []), ("tiny", 120, []), ("clone", 40, [])]
 VARIANT_PLAN = {
     "C06": [fam("iterx", 0, "--entries", "3", "--calls", "4"), fam("iter", 150), fam("retain", 100), fam("insert", 150)],
     "C12": [fam("iterx", 0, "--entries", "3", "--calls", "5"), fam("iter", 200)],
@@ -286,9 +288,9 @@ EMPHASIS = {
     "C13": [fam("capacity", 300), fam("churn", 10), fam("capx", 0), fam("slide", 0), fam("tomb", 0)],
     "C14": [fam("clone", 1000)],
     "C15": [fam("retainx", 0, "--entries", "6"), fam("retain", 600)],
-    "C16": [fam("panicx", 0, "--rounds", "2"), fam("panic", 300)],
+    "C16": [fam("panic", 300)],
     "C17": [fam("forgetx", 0, "--entries", "4", "--calls", "6"), fam("forget", 600)],
-    "C19": [fam("order", 400), fam("iter", 300), fam("clone", 200), fam("panic", 100), fam("panicx", 0, "--rounds", "2"), fam("readers", 300)],
+    "C19": [fam("order", 400), fam("iter", 300), fam("clone", 200), fam("panic", 100), fam("readers", 300)],
     "C20": [fam("churn", 8), fam("wide", 100), fam("capacity", 100), fam("tomb", 0), fam("slide", 0)],
 }
 
@@ -313,8 +315,8 @@ MIRI_PLAN = {
 MIRI_FLAGS = "-Zmiri-disable-isolation -Zmiri-permissive-provenance -Zmiri-ignore-leaks"
 
 QUICK_MULT = 3
-EXHAUSTIVE_FAMILIES = {"iterx", "forgetx", "retainx", "capx", "panicx", "exh", "slide", "tomb", "cluster"}
-SHARDED = {"iterx", "forgetx", "retainx", "panicx", "exh", "slide", "tomb", "cluster"}
+EXHAUSTIVE_FAMILIES = {"iterx", "forgetx", "retainx", "capx", "panicx", "exh", "slide", "tomb", "cluster", "deepreplace"}
+SHARDED = {"iterx", "forgetx", "retainx", "panicx", "exh", "slide", "tomb", "cluster", "deepreplace"}
 
 
 def plan(prop, tier):
@@ -449,7 +451,7 @@ def build_harness(ctx):
     rc, out = run(["cargo", "build", "--release", "--offline"], cwd=h, timeout=1800)
     if rc == 0:
         ctx.harness_variant = {}
-        if ctx.prop in VARIANT_PLAN:
+        if True:
             for v in VARIANTS:
                 rcv, outv = run(["cargo", "build", "--release", "--offline", "--features", VARIANT_FEATURES[v], "--target-dir", f"target-{v}"], cwd=h, timeout=1800)
                 if rcv != 0:
@@ -550,6 +552,11 @@ def compare(ctx, res):
             fields = [f for f in fields if f != "bk"]
             if not fields:
                 continue
+        if b.get("ar") == "ovf" and a.get("ar") != "ovf":
+            # the model says an arithmetic step leaves usize — the operation is outside assumption A-sizes (sizes
+            # whose sum passes usize::MAX) — and the implementation did not panic: it is more tolerant than it
+            # has to be there, which no property forbids
+            continue
         if a.get("ar") != b.get("ar"):
             # one side says an arithmetic step of the operation left usize (the real code panicked inside the
             # crate / the model's arithOf has a failing step), the other does not: the accounting arithmetic
@@ -925,7 +932,7 @@ def main(root, argv):
         vidx = 7000
         mult = 12 if tier == "thorough" else 1
         for v in sorted(getattr(ctx, "harness_variant", {})):
-            for (family, seqs, extra) in VARIANT_PLAN.get(prop, []):
+            for (family, seqs, extra) in VARIANT_DEFAULT + VARIANT_PLAN.get(prop, []):
                 nsh = 4 if family in SHARDED else (1 if family in EXHAUSTIVE_FAMILIES else min(4, max(1, seqs // 20)))
                 per = max(1, seqs * mult // nsh) if seqs else 0
                 for sh in range(nsh):
